@@ -1254,7 +1254,11 @@ pub fn log_script(
         s.spawn(move |_| {
             script
                 .into_par_iter()
-                .for_each_with(tx, |tx, item| tx.send(item).unwrap())
+                // Sending fails only if the receiving side has given up on an output error.
+                // That error is returned from there.
+                .for_each_with(tx, |tx, item| {
+                    let _ = tx.send(item);
+                })
         });
 
         let mut queue = PriorityQueue::new();
